@@ -280,6 +280,12 @@ func Open(opt *Options) *DB {
 				}
 				return nil
 			},
+			LogSegment: func() uint32 {
+				if man := db.Manifest(); man != nil {
+					return man.Current().LogSegment
+				}
+				return 0
+			},
 		})
 		if db.walWatchdog != nil {
 			db.walWatchdog.Start()
